@@ -88,6 +88,14 @@ def synth(rng, n, sit):
             sit["tp_absent"] += 1
         if tp == "P" and mapq == 0:
             sit["mapq0_primary_tp"] += 1
+        if (tp in ("S", "I") or mapq == 0) and rng.random() < 0.08:
+            # a record that is not counted anyway (secondary / MAPQ 0) with an empty alignment block or an
+            # empty query: its ratios are never needed
+            if rng.random() < 0.5:
+                matches, block = 0, 0
+            else:
+                qlen, qs, q = 0, 0, 0
+            sit["noncounted_record_with_zero_denominator"] += 1
         lines.append("\t".join([name, str(qlen), str(qs), str(qs + q), "+", ">s1>s2", str(span + 10), "3", str(3 + span),
                                 str(matches), str(block), str(mapq)] + fields))
     return lines
